@@ -257,7 +257,7 @@ Theorem parsed_tree_shape input t :
   exists pkg user items, t = Node (KRoot pkg user) items /\ imports_wf user /\ Forall item items.
 Proof.
   unfold parse_bytes. cbv zeta. cbn [p_lexer p_stack].
-  destruct (next_token (lex_fuel input) (new_lexer input)) as [tk lx| | |]; try discriminate.
+  destruct (next_token (lex_fuel input) (new_lexer input)) as [tk lx| | | |]; try discriminate.
   set (p1 := mkP lx [mkFrame (KRoot default_pkg []) []] tok_eof tk).
   assert (H1 : St p1).
   { unfold St. cbn. exists default_pkg, []. split; [reflexivity|]. split; [split; [constructor|intros i []]|constructor]. }
